@@ -135,6 +135,11 @@ def run_join(src, tgt, mode, agg, shape_variant, source_delete, wildcard):
     if not source_delete and out[0] != S:
         raise AssertionError('source resource altered by join(source_delete=False)')
     rows = out[-1]
+    # "keeps them with nulls": every emitted row - also an unmatched target row - CARRIES the joined field (a null is a value,
+    # a missing key is not: the next step of the pipeline reads row[field])
+    lacking = [r for r in rows if xname not in r]
+    if lacking:
+        raise AssertionError('a row emitted by join does not carry the joined field %r: %r' % (xname, lacking[0]))
     return rows, xname
 
 
